@@ -6,3 +6,21 @@ package control
 func VerifC20ControlPlaneWithCloseError(closeErr error) *ControlPlane {
 	return &ControlPlane{deferFuncs: []func() error{func() error { return closeErr }}}
 }
+
+// VerifC20ControlPlaneWithSessions: an otherwise empty control plane with n sessions that never
+// end by themselves (drain tickets that are only released by the returned function).
+func VerifC20ControlPlaneWithSessions(closeErr error, n int) (*ControlPlane, func()) {
+	c := &ControlPlane{drainTracker: newControlPlaneDrainTracker()}
+	if closeErr != nil {
+		c.deferFuncs = []func() error{func() error { return closeErr }}
+	}
+	var rel []func()
+	for i := 0; i < n; i++ {
+		rel = append(rel, c.drainTracker.Acquire())
+	}
+	return c, func() {
+		for _, f := range rel {
+			f()
+		}
+	}
+}
